@@ -118,7 +118,7 @@ impl Part for C02 {
         let (enc_ref, mut ref_s) = match r1_setup_s(c.suite, &m, &k.pk_r, &info, &k.ikm_e) {
             Some(x) => x,
             None => {
-                out.fail("R1 could not set up the sender for valid keys (reference bug)");
+                out.fail_machinery("R1 could not set up the sender for valid keys (reference bug)");
                 return out;
             }
         };
@@ -199,7 +199,7 @@ impl Part for C02 {
             Some(rr) => {
                 out.check("R1 sender and R1 receiver agree (reference sanity)", rr.key == ref_s.key && rr.exporter_secret == ref_s.exporter_secret);
             }
-            None => out.fail("R1 receiver setup failed (reference bug)"),
+            None => out.fail_machinery("R1 receiver setup failed (reference bug)"),
         }
         match ops.setup_receiver(&m, &k.sk_r, &enc_ref, &info).need("setup_receiver on R1's enc") {
             Ok(mut r) => {
